@@ -33,7 +33,7 @@ PROPS = {
     "C06": {"families": [("match", None, 6000)], "obligations": P("Props.C06", "Props.C06Sets") + TABLE_TIES + EVAL_TIES, "rule": EXPR_RULE},
     "C07": {"families": [("update", None, 6000)], "obligations": P("Props.C07") + TABLE_TIES + EVAL_TIES, "rule": EXPR_RULE},
     "C08": {"families": [("hist", "fail", 600), ("hist", "batch", 300)], "obligations": P("Props.C08", "Props.Refine"), "rule": HIST_RULE},
-    "C09": {"families": [("match", None, 3000), ("update", None, 3000), ("garbage", None, 4000), ("hist", "fail", 300), ("hist", "native", 150)], "obligations": P("Props.C09") + TABLE_TIES, "rule": EXPR_RULE},
+    "C09": {"families": [("match", None, 3000), ("update", None, 3000), ("garbage", None, 4000), ("hist", "fail", 300), ("hist", "native", 150)], "obligations": P("Props.C09", "Props.C09Client") + TABLE_TIES, "rule": EXPR_RULE},
     "C10": {"families": [("hist", "values", 500), ("poke", None, 80), ("match", None, 1500)], "obligations": P("Props.C10", "Props.Refine"), "rule": HIST_RULE},
     "C11": {"families": [("race", None, 1)], "obligations": P("Props.C11") + [(TL, "Minidyn.Tie.wellLocked_generated_v1"), (TL, "Minidyn.Tie.wellLocked_generated_v2"),
                                                               (TL, "Minidyn.Tie.wellLocked_nonvacuous")], "rule": "pairs of client methods run concurrently under the race detector"},
@@ -47,5 +47,5 @@ PROPS = {
     "C17": {"families": [("hist", "general", 300), ("hist", "lifecycle", 200), ("hist", "emul", 200), ("hist", "native", 150)], "obligations": P("Props.C17", "Props.C10"), "rule": HIST_RULE},
     "C18": {"families": [("hist", "lifecycle", 600)], "obligations": P("Props.C18") + [(TS, "Minidyn.Tie.no_singleton_leak")], "rule": HIST_RULE},
     "C19": {"families": [("hist", "batch", 600), ("decomp", None, 300), ("poke", None, 40)], "obligations": P("Props.C19", "Props.C19Get", "Props.RefineBatch") + CLIENT_TIES[:1], "rule": HIST_RULE},
-    "C20": {"families": [("hist", "native", 600)], "obligations": P("Props.C20", "Props.C20Words") + [(T, "Minidyn.Tie.native_keys_tie")], "rule": HIST_RULE},
+    "C20": {"families": [("hist", "native", 600)], "obligations": P("Props.C20", "Props.C20Words", "Props.C20Blank") + [(T, "Minidyn.Tie.native_keys_tie")], "rule": HIST_RULE},
 }
